@@ -78,6 +78,40 @@ fn vectors(ctx: &mut Ctx) {
         if w > len.div_ceil(64) {
             ctx.violation("C11|BitVec::push|space-bound-exceeded", format!("len={len}: {w} backing words"));
         }
+        // built or grown from iterators of every kind of size hint (exact, upper bound too large, unknown)
+        let src = 3 * len + 5;
+        let shapes: Vec<(&str, BitVec)> = vec![
+            ("collect(exact)", (0..len).map(|i| i % 3 == 0).collect()),
+            ("collect(filter)", (0..src).filter(|i| i % 3 == 0).take(len).map(|i| i % 2 == 0).collect()),
+            ("collect(filter, hint 3x)", (0..src).filter(|i| i % 3 == 1).map(|i| i % 2 == 0).collect::<BitVec>()),
+            ("collect(take_while)", (0..src).take_while(|&i| i < len).map(|i| i % 5 == 0).collect()),
+            ("collect(flat_map)", (0..len.div_ceil(2)).flat_map(|i| [i % 2 == 0, true]).take(len).collect()),
+            ("extend(filter)", {
+                let mut b = BitVec::new(len / 2);
+                b.extend((0..src).filter(|i| i % 7 == 0).map(|_| true));
+                b
+            }),
+            ("extend(chain)", {
+                let mut b: BitVec = (0..len / 3).map(|_| false).collect();
+                b.extend((0..len / 3).map(|_| true).chain(std::iter::once(false)));
+                b
+            }),
+        ];
+        for (nm, b) in shapes {
+            ctx.sub_evaluations += 1;
+            let l = b.len();
+            if b.as_ref().len() > l.div_ceil(64) {
+                ctx.violation("C11|BitVec::extend|space-bound-exceeded", format!("{nm}: a bit vector of {l} bits built from an iterator has {} backing words, {} suffice (mem_size {} bytes)", b.as_ref().len(), l.div_ceil(64), bits(&b) / 8));
+            }
+        }
+        let f: BitFieldVec<usize> = {
+            let mut f = BitFieldVec::<usize>::new(7, 0);
+            f.extend((0..src).filter(|i| i % 3 == 0).map(|i| i % 128));
+            f
+        };
+        if f.as_slice().len() > (f.len() * 7).div_ceil(64).max(1) {
+            ctx.violation("C11|BitFieldVec::extend|space-bound-exceeded", format!("extend(filter): {} elements of 7 bits in {} words", f.len(), f.as_slice().len()));
+        }
         if BitVec::new(len).as_ref().len() != len.div_ceil(64) || BitVec::with_value(len, true).as_ref().len() != len.div_ceil(64) {
             ctx.violation("C11|BitVec::new|space-bound-exceeded", format!("len={len}"));
         }
